@@ -9,7 +9,7 @@ from .engine_k import Seams, SimRandom, bind, bootstrap
 
 ID = "C15"
 ENGINE = "K"
-RUNS = {"quick": 1600, "thorough": 40000}
+RUNS = {"quick": 6000, "thorough": 100000}
 BATCH_WALL_CAP = {"quick": 1500, "thorough": 6 * 3600}
 RUN_WALL_CAP = 600
 RECHECK = {"quick": 12, "thorough": 200}
